@@ -18,3 +18,1240 @@ Qed.
 Lemma new_job_id_fresh : forall draws t i,
   new_job_id draws t = i -> i = 0 \/ (1 < i < 65536 /\ mem i t = false).
 Proof. intros; eapply pick_id_fresh; eauto. Qed.
+
+(* ---- lists, table, heap -------------------------------------------------------------- *)
+Lemma nth_upd : forall {A} (l : list A) n m x,
+  nth_error (upd l n x) m =
+  if Nat.eqb n m then match nth_error l n with Some _ => Some x | None => None end
+  else nth_error l m.
+Proof.
+  induction l as [|a l IH]; intros n m x.
+  - cbn. destruct (Nat.eqb n m); destruct n, m; reflexivity.
+  - destruct n, m; cbn; try reflexivity. apply IH.
+Qed.
+
+Lemma nth_upd_same : forall {A} (l : list A) n x y,
+  nth_error l n = Some y -> nth_error (upd l n x) n = Some x.
+Proof. intros. rewrite nth_upd, Nat.eqb_refl, H. reflexivity. Qed.
+
+Lemma nth_upd_other : forall {A} (l : list A) n m x,
+  n <> m -> nth_error (upd l n x) m = nth_error l m.
+Proof. intros. rewrite nth_upd. apply Nat.eqb_neq in H. rewrite H. reflexivity. Qed.
+
+Lemma length_upd : forall {A} (l : list A) n x, length (upd l n x) = length l.
+Proof. induction l; intros [|n] x; cbn; auto. Qed.
+
+Lemma upd_upd : forall {A} (l : list A) n x y, upd (upd l n x) n y = upd l n y.
+Proof. induction l; intros [|n] x y; cbn; auto. f_equal; auto. Qed.
+
+Lemma upd_same : forall {A} (l : list A) n x, nth_error l n = Some x -> upd l n x = l.
+Proof.
+  induction l; intros [|n] x H; cbn in *; auto; try congruence.
+  f_equal; auto.
+Qed.
+
+Lemma lookup_remove : forall i k t,
+  lookup k (remove i t) = if k =? i then None else lookup k t.
+Proof.
+  induction t as [|[k' h] t IH]; cbn.
+  - destruct (k =? i); reflexivity.
+  - destruct (k' =? i) eqn:E1.
+    + rewrite IH. destruct (k =? i) eqn:E2; [reflexivity|].
+      destruct (k' =? k) eqn:E3; [|reflexivity].
+      apply Z.eqb_eq in E1, E3. apply Z.eqb_neq in E2. congruence.
+    + cbn. destruct (k' =? k) eqn:E3.
+      * apply Z.eqb_eq in E3. subst k'. rewrite E1. reflexivity.
+      * apply IH.
+Qed.
+
+Lemma getj_setj : forall s h j h2,
+  getj (setj s h j) h2 =
+  if Nat.eqb h h2 then match getj s h with Some _ => Some j | None => None end else getj s h2.
+Proof. intros. unfold getj, setj. cbn. apply nth_upd. Qed.
+
+Lemma getj_setj_same : forall s h j j0, getj s h = Some j0 -> getj (setj s h j) h = Some j.
+Proof. intros. rewrite getj_setj, Nat.eqb_refl, H. reflexivity. Qed.
+
+Lemma getj_setj_other : forall s h j h2, h <> h2 -> getj (setj s h j) h2 = getj s h2.
+Proof. intros. rewrite getj_setj. apply Nat.eqb_neq in H. rewrite H. reflexivity. Qed.
+
+Lemma getj_lt : forall s h j, getj s h = Some j -> (h < length (jobs s))%nat.
+Proof. intros. apply nth_error_Some. unfold getj in H. congruence. Qed.
+
+(* ---- the effect of one atomic step on the shared state -------------------------------- *)
+(* the job after a finishing event: status, done = nil, result tag, error flag *)
+Definition fin_job (j : job) (st r : Z) (e : bool) : job :=
+  mkJob (jid j) st Nil r e (jfrags j) (jorph j).
+
+Inductive effect (s : sess) : pc -> sess -> Prop :=
+| EffNone : forall p, effect s p s
+| EffInsert : forall id, effect s (PTask3 id) (insert_job s id)
+| EffStatus : forall p h j j', c14_pc p = false -> getj s h = Some j ->
+    jid j' = jid j -> jdone j' = jdone j -> jorph j' = jorph j -> jres j' = jres j -> jerr j' = jerr j ->
+    effect s p (setj s h j')
+| EffResult : forall h err tag j, getj s h = Some j -> lookup (jid j) (table s) = Some h ->
+    effect s (PH2 h err tag)
+      (set_table (setj s h (fin_job j (if err then StError else StCompleted) tag err)) (remove (jid j) (table s)))
+| EffCancelT : forall h j, getj s h = Some j -> jdone j <> Nil -> lookup (jid j) (table s) = Some h ->
+    effect s (PC1 h)
+      (set_table (setj s h (fin_job j StCanceled (jres j) (jerr j))) (remove (jid j) (table s)))
+| EffCancelO : forall h j, getj s h = Some j -> jdone j <> Nil -> lookup (jid j) (table s) <> Some h ->
+    effect s (PC1 h) (setj s h (fin_job j StCanceled (jres j) (jerr j))).
+
+Definition no_closed (s : sess) : Prop := forall h j, getj s h = Some j -> jdone j <> Closed.
+
+Ltac break_in H :=
+  repeat match type of H with
+  | context [match ?x with _ => _ end] => destruct x eqn:?
+  end.
+
+Lemma step_effect : forall p s p' s',
+  no_closed s -> step p s = Ok (p', s') -> effect s p s'.
+Proof.
+  intros p s p' s' NC H.
+  destruct p; cbn [step step_common] in H;
+    try (break_in H; try discriminate; inversion H; subst; clear H; apply EffNone).
+  - (* PTask3 *) inversion H; subst. apply EffInsert.
+  - (* PH2 *)
+    destruct (getj s h) as [j|] eqn:G; [|inversion H; subst; apply EffNone].
+    destruct (lookup (jid j) (table s)) as [h'|] eqn:L; [|inversion H; subst; apply EffNone].
+    destruct (Nat.eqb h' h) eqn:E; [|inversion H; subst; apply EffNone].
+    apply Nat.eqb_eq in E. subst h'. pose proof (NC _ _ G) as NCj.
+    destruct j as [i st d r e f o]. cbn in *.
+    destruct d; cbn in H; try congruence; inversion H; subst; clear H;
+      exact (EffResult s h err tag _ G L).
+  - (* PC1 *)
+    destruct (getj s h) as [j|] eqn:G; [|inversion H; subst; apply EffNone].
+    pose proof (NC _ _ G) as NCj.
+    destruct j as [i st d r e f o]. cbn in *.
+    destruct d; cbn in H; try congruence; [|inversion H; subst; apply EffNone].
+    destruct (lookup i (table s)) as [h'|] eqn:L.
+    + destruct (Nat.eqb h' h) eqn:E; inversion H; subst; clear H.
+      * apply Nat.eqb_eq in E. subst h'.
+        refine (EffCancelT s h _ G _ L). cbn. congruence.
+      * apply Nat.eqb_neq in E.
+        refine (EffCancelO s h _ G _ _); cbn; congruence.
+    + inversion H; subst; clear H. refine (EffCancelO s h _ G _ _); cbn; congruence.
+  - (* PA2 *)
+    destruct (getj s h) as [j|] eqn:G; inversion H; subst; [|apply EffNone].
+    eapply EffStatus; eauto.
+  - (* PF2 *)
+    destruct (getj s h) as [j|] eqn:G; inversion H; subst; [|apply EffNone].
+    eapply EffStatus; eauto; destruct (jfrags j =? 0); reflexivity.
+Qed.
+
+Lemma step_total : forall p s, no_closed s -> exists p' s', step p s = Ok (p', s').
+Proof.
+  intros p s NC.
+  destruct p; cbn [step step_common];
+    try (repeat match goal with |- context [match ?x with _ => _ end] => destruct x eqn:? end; eauto; fail).
+  - (* PH2 *)
+    destruct (getj s h) as [j|] eqn:G; eauto.
+    destruct (lookup (jid j) (table s)) as [h'|]; eauto.
+    destruct (Nat.eqb h' h); eauto.
+    pose proof (NC _ _ G). destruct j as [i st d r e f o]; cbn in *.
+    destruct d; cbn; eauto; congruence.
+  - (* PC1 *)
+    destruct (getj s h) as [j|] eqn:G; eauto.
+    pose proof (NC _ _ G). destruct j as [i st d r e f o]; cbn in *.
+    destruct d; cbn; eauto; try congruence.
+    destruct (lookup i (table s)) as [h'|]; eauto. destruct (Nat.eqb h' h); eauto.
+Qed.
+
+(* ---- insert_job ---------------------------------------------------------------------- *)
+Definition ins_jobs (s : sess) (id : Z) : list job :=
+  match lookup id (table s) with
+  | Some h' => match nth_error (jobs s) h' with
+               | Some j' => upd (jobs s) h' (with_orph j')
+               | None => jobs s
+               end
+  | None => jobs s
+  end.
+
+Lemma insert_job_eq : forall s id,
+  insert_job s id = mkSess (ins_jobs s id ++ [new_job id]) ((id, length (jobs s)) :: remove id (table s)).
+Proof. reflexivity. Qed.
+
+Lemma ins_jobs_length : forall s id, length (ins_jobs s id) = length (jobs s).
+Proof.
+  intros. unfold ins_jobs. destruct (lookup id (table s)); auto.
+  destruct (nth_error (jobs s) n); auto. apply length_upd.
+Qed.
+
+Lemma ins_jobs_nth : forall s id h,
+  nth_error (ins_jobs s id) h =
+  match nth_error (jobs s) h with
+  | Some j => if option_eqb Nat.eqb (lookup id (table s)) (Some h) then Some (with_orph j) else Some j
+  | None => None
+  end.
+Proof.
+  intros. unfold ins_jobs. destruct (lookup id (table s)) as [h'|] eqn:L; cbn.
+  - destruct (nth_error (jobs s) h') as [j'|] eqn:G.
+    + rewrite nth_upd. destruct (Nat.eqb h' h) eqn:E.
+      * apply Nat.eqb_eq in E. subst. rewrite G. reflexivity.
+      * destruct (nth_error (jobs s) h); reflexivity.
+    + destruct (Nat.eqb h' h) eqn:E.
+      * apply Nat.eqb_eq in E. subst. rewrite G. reflexivity.
+      * destruct (nth_error (jobs s) h); reflexivity.
+  - destruct (nth_error (jobs s) h); reflexivity.
+Qed.
+
+Lemma getj_insert_inv : forall s id h j',
+  getj (insert_job s id) h = Some j' ->
+  (h = length (jobs s) /\ j' = new_job id) \/
+  (exists j, getj s h = Some j /\
+     ((j' = j /\ lookup id (table s) <> Some h) \/ (j' = with_orph j /\ lookup id (table s) = Some h))).
+Proof.
+  intros s id h j' H. rewrite insert_job_eq in H. unfold getj in *. cbn [jobs] in H.
+  destruct (Nat.lt_ge_cases h (length (jobs s))) as [Lt|Ge].
+  - right. rewrite nth_error_app1 in H by (rewrite ins_jobs_length; exact Lt).
+    rewrite ins_jobs_nth in H. destruct (nth_error (jobs s) h) as [j|]; [|discriminate].
+    exists j. split; [reflexivity|].
+    destruct (lookup id (table s)) as [h'|]; cbn in H.
+    + destruct (Nat.eqb h' h) eqn:E; inversion H; subst.
+      * apply Nat.eqb_eq in E. subst. right. auto.
+      * apply Nat.eqb_neq in E. left. split; congruence.
+    + inversion H. left. split; congruence.
+  - left. rewrite nth_error_app2 in H by (rewrite ins_jobs_length; exact Ge).
+    rewrite ins_jobs_length in H.
+    destruct (h - length (jobs s))%nat as [|k] eqn:E; cbn in H.
+    + inversion H. split; [lia|reflexivity].
+    + destruct k; discriminate.
+Qed.
+
+Lemma getj_insert_old : forall s id h j,
+  getj s h = Some j ->
+  getj (insert_job s id) h =
+  Some (if option_eqb Nat.eqb (lookup id (table s)) (Some h) then with_orph j else j).
+Proof.
+  intros s id h j G. rewrite insert_job_eq. unfold getj in *. cbn [jobs].
+  rewrite nth_error_app1 by (rewrite ins_jobs_length; apply nth_error_Some; congruence).
+  rewrite ins_jobs_nth, G. destruct (option_eqb Nat.eqb (lookup id (table s)) (Some h)); reflexivity.
+Qed.
+
+Lemma getj_insert_new : forall s id, getj (insert_job s id) (length (jobs s)) = Some (new_job id).
+Proof.
+  intros. rewrite insert_job_eq. unfold getj. cbn [jobs].
+  rewrite nth_error_app2 by (rewrite ins_jobs_length; lia).
+  rewrite ins_jobs_length, Nat.sub_diag. reflexivity.
+Qed.
+
+Lemma lookup_insert : forall s id k,
+  lookup k (table (insert_job s id)) = if id =? k then Some (length (jobs s)) else lookup k (table s).
+Proof.
+  intros. rewrite insert_job_eq. cbn [table lookup]. destruct (id =? k) eqn:E; [reflexivity|].
+  rewrite lookup_remove. rewrite Z.eqb_sym, E. reflexivity.
+Qed.
+
+(* ---- the invariant of the shared state ------------------------------------------------ *)
+Record Inv (s : sess) : Prop := {
+  inv_noclosed : no_closed s;
+  (* what the table holds is a pending, not overwritten job with that number *)
+  inv_table : forall k h, lookup k (table s) = Some h ->
+     exists j, getj s h = Some j /\ jid j = k /\ jdone j = Open /\ jorph j = false;
+  (* a pending job that was not overwritten is in the table under its number *)
+  inv_open : forall h j, getj s h = Some j -> jdone j = Open -> jorph j = false ->
+     lookup (jid j) (table s) = Some h
+}.
+
+Lemma getj_set_table : forall s t h, getj (set_table s t) h = getj s h.
+Proof. reflexivity. Qed.
+
+Lemma Inv_s0 : Inv s0.
+Proof.
+  split.
+  - intros h j H. destruct h; discriminate.
+  - intros k h H. discriminate.
+  - intros h j H. destruct h; discriminate.
+Qed.
+
+Lemma opt_eqb_true : forall a h, option_eqb Nat.eqb a (Some h) = true <-> a = Some h.
+Proof.
+  intros [x|] h; cbn; split; intro H; try discriminate.
+  - apply Nat.eqb_eq in H. congruence.
+  - inversion H. apply Nat.eqb_refl.
+Qed.
+
+Lemma effect_inv : forall s p s', Inv s -> effect s p s' -> Inv s'.
+Proof.
+  intros s p s' [NC T O] E. destruct E.
+  - split; assumption.
+  - (* insert *)
+    split.
+    + intros h j G. apply getj_insert_inv in G as [[_ ->]|[j0 [G [[-> _]|[-> _]]]]]; cbn; try congruence;
+        try (eapply NC; eauto).
+    + intros k h L. rewrite lookup_insert in L. destruct (id =? k) eqn:E.
+      * apply Z.eqb_eq in E. inversion L; subst. exists (new_job k). rewrite getj_insert_new. cbn. auto.
+      * destruct (T _ _ L) as [j [G [I [D Or]]]]. exists j. split; [|auto].
+        rewrite (getj_insert_old _ _ _ _ G).
+        destruct (option_eqb Nat.eqb (lookup id (table s)) (Some h)) eqn:Q; [|reflexivity].
+        apply opt_eqb_true in Q. destruct (T _ _ Q) as [j2 [G2 [I2 _]]].
+        apply Z.eqb_neq in E. congruence.
+    + intros h j G D Or. rewrite lookup_insert.
+      apply getj_insert_inv in G as [[-> ->]|[j0 [G [[-> NL]|[-> _]]]]].
+      * cbn. rewrite Z.eqb_refl. reflexivity.
+      * pose proof (O _ _ G D Or) as L. destruct (id =? jid j0) eqn:E; [|exact L].
+        apply Z.eqb_eq in E. congruence.
+      * cbn in Or. discriminate.
+  - (* status / frags write *)
+    split.
+    + intros h2 j2 G. rewrite getj_setj in G. destruct (Nat.eqb h h2) eqn:E.
+      * rewrite H0 in G. inversion G; subst. rewrite H2. eapply NC; eauto.
+      * eapply NC; eauto.
+    + intros k h2 L. cbn [table setj] in L. destruct (T _ _ L) as [j2 [G2 R]].
+      rewrite getj_setj. destruct (Nat.eqb h h2) eqn:E.
+      * apply Nat.eqb_eq in E. subst. rewrite H0. exists j'. split; [reflexivity|].
+        rewrite H0 in G2. inversion G2; subst. rewrite H1, H2, H3. exact R.
+      * exists j2. auto.
+    + intros h2 j2 G D Or. cbn [table setj]. rewrite getj_setj in G. destruct (Nat.eqb h h2) eqn:E.
+      * apply Nat.eqb_eq in E. subst. rewrite H0 in G. inversion G; subst.
+        rewrite H1. apply O; congruence.
+      * apply O; auto.
+  - (* result *)
+    destruct (T _ _ H0) as [j0 [G0 [_ [D0 Or0]]]]. rewrite H in G0. inversion G0; subst j0. clear G0.
+    split.
+    + intros h2 j2 G. rewrite getj_set_table in G.
+      rewrite getj_setj in G. destruct (Nat.eqb h h2).
+      * rewrite H in G. inversion G. cbn. congruence.
+      * eapply NC; eauto.
+    + intros k h2 L. cbn [table set_table] in L. rewrite lookup_remove in L.
+      destruct (k =? jid j) eqn:E; [discriminate|]. destruct (T _ _ L) as [j2 [G2 [I2 R]]].
+      exists j2. split; [|auto]. 
+      rewrite getj_set_table.
+      rewrite getj_setj_other; auto. intro; subst h2. apply Z.eqb_neq in E. congruence.
+    + intros h2 j2 G D Or. cbn [table set_table].
+      rewrite getj_set_table in G.
+      rewrite getj_setj in G. destruct (Nat.eqb h h2) eqn:E.
+      * rewrite H in G. inversion G; subst. discriminate.
+      * apply Nat.eqb_neq in E. pose proof (O _ _ G D Or) as L. rewrite lookup_remove.
+        destruct (jid j2 =? jid j) eqn:E2; [|exact L]. apply Z.eqb_eq in E2. congruence.
+  - (* cancel, tracked *)
+    split.
+    + intros h2 j2 G. rewrite getj_set_table in G.
+      rewrite getj_setj in G. destruct (Nat.eqb h h2).
+      * rewrite H in G. inversion G. cbn. congruence.
+      * eapply NC; eauto.
+    + intros k h2 L. cbn [table set_table] in L. rewrite lookup_remove in L.
+      destruct (k =? jid j) eqn:E; [discriminate|]. destruct (T _ _ L) as [j2 [G2 [I2 R]]].
+      exists j2. split; [|auto].
+      rewrite getj_set_table.
+      rewrite getj_setj_other; auto. intro; subst h2. apply Z.eqb_neq in E. congruence.
+    + intros h2 j2 G D Or. cbn [table set_table].
+      rewrite getj_set_table in G.
+      rewrite getj_setj in G. destruct (Nat.eqb h h2) eqn:E.
+      * rewrite H in G. inversion G; subst. discriminate.
+      * apply Nat.eqb_neq in E. pose proof (O _ _ G D Or) as L. rewrite lookup_remove.
+        destruct (jid j2 =? jid j) eqn:E2; [|exact L]. apply Z.eqb_eq in E2. congruence.
+  - (* cancel, not tracked (overwritten job) *)
+    split.
+    + intros h2 j2 G. rewrite getj_setj in G. destruct (Nat.eqb h h2).
+      * rewrite H in G. inversion G. cbn. congruence.
+      * eapply NC; eauto.
+    + intros k h2 L. cbn [table setj] in L. destruct (T _ _ L) as [j2 [G2 [I2 R]]].
+      exists j2. split; [|auto]. rewrite getj_setj_other; auto. intro; subst h2. congruence.
+    + intros h2 j2 G D Or. cbn [table setj]. rewrite getj_setj in G. destruct (Nat.eqb h h2) eqn:E.
+      * rewrite H in G. inversion G; subst. discriminate.
+      * apply O; auto.
+Qed.
+
+(* ---- histories ------------------------------------------------------------------------ *)
+Lemma exec_run_cases : forall t (c c' : cfg),
+  exec step init_pc (Run t) c = Ok c' ->
+  (nth_error (fst c) t = None /\ c' = c) \/
+  exists p p' s', nth_error (fst c) t = Some p /\ step p (snd c) = Ok (p', s') /\
+                  c' = (upd (fst c) t p', s').
+Proof.
+  intros t c c' H. unfold exec in H. destruct (nth_error (fst c) t) as [p|] eqn:N.
+  - right. unfold bind in H. destruct (step p (snd c)) as [[p' s']| |] eqn:S; try discriminate.
+    inversion H. exists p, p', s'. auto.
+  - left. inversion H. auto.
+Qed.
+
+Lemma exec_spawn : forall o (c : cfg),
+  exec step init_pc (Spawn o) c = Ok (fst c ++ [init_pc o], snd c).
+Proof. reflexivity. Qed.
+
+Lemma exec_effect : forall e (c c' : cfg),
+  Inv (snd c) -> exec step init_pc e c = Ok c' ->
+  snd c' = snd c \/ exists t p, e = Run t /\ nth_error (fst c) t = Some p /\ effect (snd c) p (snd c').
+Proof.
+  intros e c c' I H. destruct e as [o|t].
+  - inversion H. left. reflexivity.
+  - apply exec_run_cases in H as [[_ ->]|[p [p' [s' [N [S ->]]]]]]; [left; reflexivity|].
+    right. exists t, p. repeat split; auto. eapply step_effect; eauto. apply I.
+Qed.
+
+Lemma exec_inv : forall e (c c' : cfg),
+  Inv (snd c) -> exec step init_pc e c = Ok c' -> Inv (snd c').
+Proof.
+  intros e c c' I H. destruct (exec_effect _ _ _ I H) as [->|[t [p [_ [_ E]]]]]; [exact I|].
+  eapply effect_inv; eauto.
+Qed.
+
+Lemma exec_total : forall e (c : cfg), Inv (snd c) -> exists c', exec step init_pc e c = Ok c'.
+Proof.
+  intros e c I. destruct e as [o|t]; [eexists; reflexivity|].
+  unfold exec. destruct (nth_error (fst c) t) as [p|]; [|eexists; reflexivity].
+  destruct (step_total p (snd c) (inv_noclosed _ I)) as [p' [s' ->]]. cbn. eexists; reflexivity.
+Qed.
+
+Lemma run_from_cons : forall e es (c : cfg),
+  run_from c (e :: es) = do c' <- exec step init_pc e c; run_from c' es.
+Proof. reflexivity. Qed.
+
+Lemma run_from_app : forall es1 es2 (c : cfg),
+  run_from c (es1 ++ es2) = do c' <- run_from c es1; run_from c' es2.
+Proof.
+  induction es1 as [|e es1 IH]; intros es2 c; [reflexivity|].
+  cbn [app]. rewrite !run_from_cons. destruct (exec step init_pc e c); cbn; auto.
+Qed.
+
+Lemma run_from_inv : forall es (c c' : cfg), Inv (snd c) -> run_from c es = Ok c' -> Inv (snd c').
+Proof.
+  induction es as [|e es IH]; intros c c' I H.
+  - inversion H; subst; exact I.
+  - rewrite run_from_cons in H. destruct (exec step init_pc e c) as [c1| |] eqn:X; try discriminate.
+    eapply IH; [|exact H]. eapply exec_inv; eauto.
+Qed.
+
+Lemma run_from_total : forall es (c : cfg), Inv (snd c) -> exists c', run_from c es = Ok c'.
+Proof.
+  induction es as [|e es IH]; intros c I; [eexists; reflexivity|].
+  rewrite run_from_cons. destruct (exec_total e c I) as [c1 X]. rewrite X. cbn.
+  apply IH. eapply exec_inv; eauto.
+Qed.
+
+Lemma run_inv : forall es c, run es = Ok c -> Inv (snd c).
+Proof. intros es c. apply run_from_inv. exact Inv_s0. Qed.
+
+(* done_closed_once: every history runs to the end, no step panics *)
+Lemma run_total : forall es, exists c, run es = Ok c.
+Proof. intro es. apply run_from_total. exact Inv_s0. Qed.
+
+Lemma run_no_panic : forall es, run es <> Panic.
+Proof. intro es. destruct (run_total es) as [c H]. congruence. Qed.
+
+(* a general induction principle over histories *)
+Lemma run_from_ind (P : cfg -> Prop) :
+  (forall e c c', Inv (snd c) -> P c -> exec step init_pc e c = Ok c' -> P c') ->
+  forall es c c', Inv (snd c) -> P c -> run_from c es = Ok c' -> P c'.
+Proof.
+  intros Hs. induction es as [|e es IH]; intros c c' I Pc H.
+  - inversion H; subst; exact Pc.
+  - rewrite run_from_cons in H. destruct (exec step init_pc e c) as [c1| |] eqn:X; try discriminate.
+    eapply IH; [| |exact H]; [eapply exec_inv|eapply Hs]; eauto.
+Qed.
+
+(* ---- what happens to one job --------------------------------------------------------- *)
+Lemma effect_mono : forall s p s' h j,
+  effect s p s' -> getj s h = Some j ->
+  exists j', getj s' h = Some j' /\ jid j' = jid j /\ (jdone j = Nil -> jdone j' = Nil) /\
+             (jdone j' = Open -> jdone j = Open).
+Proof.
+  intros s p s' h j E G. destruct E.
+  - exists j. auto.
+  - rewrite (getj_insert_old _ _ _ _ G).
+    destruct (option_eqb Nat.eqb (lookup id (table s)) (Some h)); eexists; split; eauto.
+  - rewrite getj_setj. destruct (Nat.eqb h0 h) eqn:E.
+    + apply Nat.eqb_eq in E. subst. rewrite H0. rewrite H0 in G. inversion G; subst.
+      exists j'. rewrite H2. auto.
+    + exists j. auto.
+  - rewrite getj_set_table, getj_setj. destruct (Nat.eqb h0 h) eqn:E.
+    + apply Nat.eqb_eq in E. subst. rewrite H. rewrite H in G. inversion G; subst.
+      eexists. split; [reflexivity|]. cbn. repeat split; auto; discriminate.
+    + exists j. auto.
+  - rewrite getj_set_table, getj_setj. destruct (Nat.eqb h0 h) eqn:E.
+    + apply Nat.eqb_eq in E. subst. rewrite H. rewrite H in G. inversion G; subst.
+      eexists. split; [reflexivity|]. cbn. repeat split; auto; discriminate.
+    + exists j. auto.
+  - rewrite getj_setj. destruct (Nat.eqb h0 h) eqn:E.
+    + apply Nat.eqb_eq in E. subst. rewrite H. rewrite H in G. inversion G; subst.
+      eexists. split; [reflexivity|]. cbn. repeat split; auto; discriminate.
+    + exists j. auto.
+Qed.
+
+Lemma exec_mono : forall e (c c' : cfg) h j,
+  Inv (snd c) -> exec step init_pc e c = Ok c' -> getj (snd c) h = Some j ->
+  exists j', getj (snd c') h = Some j' /\ jid j' = jid j /\ (jdone j = Nil -> jdone j' = Nil) /\
+             (jdone j' = Open -> jdone j = Open).
+Proof.
+  intros e c c' h j I H G. destruct (exec_effect _ _ _ I H) as [->|[t [p [_ [_ E]]]]].
+  - exists j. auto.
+  - eapply effect_mono; eauto.
+Qed.
+
+(* a finished job stays finished (any operations, accept / frag included) *)
+Lemma finished_stable : forall es (c c' : cfg) h,
+  Inv (snd c) -> finished (snd c) h -> run_from c es = Ok c' -> finished (snd c') h.
+Proof.
+  intros es c c' h I F H. revert es c c' I F H.
+  refine (run_from_ind (fun c => finished (snd c) h) _).
+  intros e c c' I [j [G D]] X. destruct (exec_mono _ _ _ _ _ I X G) as [j' [G' [_ [N _]]]].
+  exists j'. auto.
+Qed.
+
+Lemma pending_not_finished : forall s h, pending s h -> finished s h -> False.
+Proof. intros s h [j [G D]] [j' [G' D']]. congruence. Qed.
+
+(* the job exists: it is pending or finished, never in between (done is never "closed") *)
+Lemma pending_or_finished : forall s h j, Inv s -> getj s h = Some j -> pending s h \/ finished s h.
+Proof.
+  intros s h j I G. pose proof (inv_noclosed _ I _ _ G). destruct (jdone j) eqn:D; try congruence.
+  - left. exists j. auto.
+  - right. exists j. auto.
+Qed.
+
+(* ---- leaves_table / waiters_released (state part) --------------------------------------- *)
+Lemma tracked_pending : forall s h, Inv s -> tracked s h -> pending s h.
+Proof. intros s h I [k L]. destruct (inv_table _ I _ _ L) as [j [G [_ [D _]]]]. exists j. auto. Qed.
+
+Lemma finished_not_tracked : forall s h, Inv s -> finished s h -> ~ tracked s h.
+Proof. intros s h I F T. eapply pending_not_finished; eauto. apply tracked_pending; auto. Qed.
+
+Lemma untracked_finished : forall s h j,
+  Inv s -> getj s h = Some j -> jorph j = false -> ~ tracked s h -> finished s h.
+Proof.
+  intros s h j I G Or NT. destruct (pending_or_finished _ _ _ I G) as [[j' [G' D]]|F]; [|exact F].
+  exfalso. apply NT. exists (jid j). rewrite G in G'. inversion G'; subst. apply (inv_open _ I); auto.
+Qed.
+
+(* a waiter of a finished job returns at its next step; IsDone answers true *)
+Lemma wait_step_finished : forall s h p,
+  finished s h -> p = PW0 h \/ p = PW1 h -> step p s = Ok (PDone RUnit, s).
+Proof. intros s h p [j [G D]] [->| ->]; cbn; rewrite G, D; reflexivity. Qed.
+
+Lemma isdone_step_finished : forall s h p,
+  finished s h -> p = PI0 h \/ p = PI1 h -> step p s = Ok (PDone (RBool true), s).
+Proof. intros s h p [j [G D]] [->| ->]; cbn; rewrite G, D; reflexivity. Qed.
+
+(* a waiter of a pending job does not return; IsDone answers false *)
+Lemma wait_step_pending : forall s h p p' s',
+  pending s h -> p = PW0 h \/ p = PW1 h -> step p s = Ok (p', s') -> p' = PW1 h /\ s' = s.
+Proof. intros s h p p' s' [j [G D]] [->| ->] H; cbn in H; rewrite G, D in H; inversion H; auto. Qed.
+
+Lemma isdone_step_pending : forall s h p p' s',
+  pending s h -> p = PI0 h \/ p = PI1 h -> step p s = Ok (p', s') ->
+  (p' = PI1 h \/ p' = PDone (RBool false)) /\ s' = s.
+Proof. intros s h p p' s' [j [G D]] [->| ->] H; cbn in H; rewrite G, D in H; inversion H; auto. Qed.
+
+(* ---- one thread through a history ------------------------------------------------------- *)
+Lemma thread_inv (R : pc -> sess -> Prop) :
+  (forall p s p' s', Inv s -> R p s -> step p s = Ok (p', s') -> R p' s') ->
+  (forall p s q s', Inv s -> R p s -> effect s q s' -> R p s') ->
+  forall es (c c' : cfg) t, Inv (snd c) ->
+    (exists p, nth_error (fst c) t = Some p /\ R p (snd c)) -> run_from c es = Ok c' ->
+    exists p', nth_error (fst c') t = Some p' /\ R p' (snd c').
+Proof.
+  intros Own Oth es c c' t I HR H. revert es c c' I HR H.
+  refine (run_from_ind (fun c => exists p, nth_error (fst c) t = Some p /\ R p (snd c)) _).
+  intros e c c' I [p [N Rp]] X. destruct e as [o|t'].
+  - inversion X; subst. cbn. exists p. split; [|exact Rp].
+    rewrite nth_error_app1; [exact N|]. apply nth_error_Some. congruence.
+  - apply exec_run_cases in X as [[_ ->]|[q [q' [s' [N' [S ->]]]]]]; [exists p; auto|].
+    cbn [fst snd]. destruct (Nat.eq_dec t' t) as [->|NE].
+    + rewrite N in N'. inversion N'; subst q. exists q'. split; [eapply nth_upd_same; eauto|].
+      eapply Own; eauto.
+    + exists p. rewrite nth_upd_other by exact NE. split; [exact N|].
+      eapply Oth; eauto. eapply step_effect; eauto. apply I.
+Qed.
+
+Lemma nth_spawned : forall (ps : list pc) p, nth_error (ps ++ [p]) (length ps) = Some p.
+Proof. intros. rewrite nth_error_app2 by lia. rewrite Nat.sub_diag. reflexivity. Qed.
+
+(* Wait never returns while the job is pending: a thread started as Wait(h) on an existing job
+   that has returned implies the job is finished *)
+Definition wait_R (h : nat) (p : pc) (s : sess) : Prop :=
+  (h < length (jobs s))%nat /\ (p = PW0 h \/ p = PW1 h \/ ((exists r, p = PDone r) /\ finished s h)).
+
+Lemma lt_getj : forall s h, (h < length (jobs s))%nat -> exists j, getj s h = Some j.
+Proof. intros s h L. unfold getj. destruct (nth_error (jobs s) h) eqn:E; eauto. apply nth_error_None in E. lia. Qed.
+
+Lemma valid_effect : forall s q s' h, effect s q s' -> (h < length (jobs s))%nat -> (h < length (jobs s'))%nat.
+Proof.
+  intros s q s' h E L. destruct (lt_getj _ _ L) as [j G].
+  destruct (effect_mono _ _ _ _ _ E G) as [j' [G' _]]. eapply getj_lt; eauto.
+Qed.
+
+Lemma finished_effect : forall s q s' h, effect s q s' -> finished s h -> finished s' h.
+Proof.
+  intros s q s' h E [j [G D]]. destruct (effect_mono _ _ _ _ _ E G) as [j' [G' [_ [N _]]]]. exists j'. auto.
+Qed.
+
+Lemma wait_not_early : forall es (c c' : cfg) h r,
+  Inv (snd c) -> (h < length (jobs (snd c)))%nat ->
+  run_from c (Spawn (OWait h) :: es) = Ok c' ->
+  nth_error (fst c') (length (fst c)) = Some (PDone r) -> finished (snd c') h.
+Proof.
+  intros es c c' h r I V H N. rewrite run_from_cons, exec_spawn in H. cbn [bind] in H.
+  destruct (thread_inv (wait_R h)) with (es := es) (c := (fst c ++ [init_pc (OWait h)], snd c)) (c' := c') (t := length (fst c))
+    as [p' [N' [_ R]]]; auto.
+  - intros p s p' s' Is [L R] S. pose proof (inv_noclosed _ Is) as NC. destruct (lt_getj _ _ L) as [j G].
+    destruct R as [->|[->|[[r0 ->] F]]]; cbn in S; try rewrite G in S.
+    + destruct (jdone j) eqn:D; inversion S; subst; (split; [auto|]); auto;
+        try (exfalso; eapply NC; eauto; fail); right; right; split; eauto; exists j; auto.
+    + destruct (jdone j) eqn:D; inversion S; subst; (split; [auto|]); auto;
+        try (exfalso; eapply NC; eauto; fail); right; right; split; eauto; exists j; auto.
+    + inversion S; subst. split; eauto.
+  - intros p s q s' Is [L R] E. split; [eapply valid_effect; eauto|].
+    destruct R as [->|[->|[X F]]]; auto. right. right. split; auto. eapply finished_effect; eauto.
+  - exists (PW0 h). cbn. split; [apply nth_spawned|]. split; auto.
+  - rewrite N in N'. inversion N'; subst. destruct R as [X|[X|[_ F]]]; try discriminate. exact F.
+Qed.
+
+(* Cancel finishes the job: a thread started as Cancel(h) on an existing job that has returned
+   implies the job is finished (by it or by someone else) *)
+Definition cancel_R (h : nat) (p : pc) (s : sess) : Prop :=
+  (h < length (jobs s))%nat /\ (p = PC0 h \/ p = PC1 h \/ ((exists r, p = PDone r) /\ finished s h)).
+
+Lemma cancel_completes : forall es (c c' : cfg) h r,
+  Inv (snd c) -> (h < length (jobs (snd c)))%nat ->
+  run_from c (Spawn (OCancel h) :: es) = Ok c' ->
+  nth_error (fst c') (length (fst c)) = Some (PDone r) -> finished (snd c') h /\ ~ tracked (snd c') h.
+Proof.
+  intros es c c' h r I V H N.
+  assert (Ic' : Inv (snd c')) by (eapply run_from_inv; eauto).
+  rewrite run_from_cons, exec_spawn in H. cbn [bind] in H.
+  destruct (thread_inv (cancel_R h)) with (es := es) (c := (fst c ++ [init_pc (OCancel h)], snd c)) (c' := c') (t := length (fst c))
+    as [p' [N' [_ R]]]; auto.
+  - intros p s p' s' Is [L R] S. pose proof (inv_noclosed _ Is) as NC. destruct (lt_getj _ _ L) as [j G].
+    pose proof (step_effect _ _ _ _ NC S) as E.
+    split; [eapply valid_effect; eauto|].
+    destruct R as [->|[->|[[r0 ->] F]]].
+    + cbn in S. rewrite G in S. destruct (jdone j) eqn:D; inversion S; subst; auto.
+      right. right. split; eauto. exists j. auto.
+    + right. right. cbn in S. rewrite G in S. pose proof (NC _ _ G) as NCj.
+      destruct j as [i st d rr e f o]; cbn in *.
+      destruct d; try congruence; cbn in S.
+      * destruct (lookup i (table s)) as [h'|]; [destruct (Nat.eqb h' h)|]; inversion S; subst;
+          (split; [eauto|]); eexists; (split; [try rewrite getj_set_table; eapply getj_setj_same; eauto|reflexivity]).
+      * inversion S; subst. split; eauto. eexists; split; eauto.
+    + inversion S; subst. right. right. split; eauto.
+  - intros p s q s' Is [L R] E. split; [eapply valid_effect; eauto|].
+    destruct R as [->|[->|[X F]]]; auto. right. right. split; auto. eapply finished_effect; eauto.
+  - exists (PC0 h). cbn. split; [apply nth_spawned|]. split; auto.
+  - rewrite N in N'. inversion N'; subst. destruct R as [X|[X|[_ F]]]; try discriminate.
+    split; [exact F|]. apply finished_not_tracked; auto.
+Qed.
+
+(* ---- status: histories of the operations of the property (no accept / frag) ------------- *)
+Definition InvSt (s : sess) : Prop :=
+  forall h j, getj s h = Some j ->
+    (jdone j = Open -> jstatus j = StWaiting /\ jres j = 0 /\ jerr j = false) /\
+    (jdone j = Nil -> final (jstatus j)).
+
+Definition clean (ps : list pc) : Prop := forall t p, nth_error ps t = Some p -> c14_pc p = true.
+
+Lemma step_c14 : forall p s p' s', step p s = Ok (p', s') -> c14_pc p = true -> c14_pc p' = true.
+Proof.
+  intros p s p' s' H C.
+  destruct p; try discriminate; cbn [step step_common] in H; unfold close_nil, close_chan, bind in H;
+    break_in H; try discriminate; inversion H; subst; reflexivity.
+Qed.
+
+Lemma init_c14 : forall o, c14_pc (init_pc o) = c14_op o.
+Proof. destruct o; reflexivity. Qed.
+
+Lemma final_cases : forall err : bool, final (if err then StError else StCompleted).
+Proof. intros [|]; unfold final; auto. Qed.
+
+Lemma effect_invst : forall s p s', Inv s -> InvSt s -> effect s p s' -> c14_pc p = true -> InvSt s'.
+Proof.
+  intros s p s' I St E C. destruct E.
+  - exact St.
+  - intros h j G. apply getj_insert_inv in G as [[_ ->]|[j0 [G [[-> _]|[-> _]]]]].
+    + cbn. split; [auto|discriminate].
+    + apply (St _ _ G).
+    + apply (St _ _ G).
+  - congruence.
+  - intros h2 j2 G. rewrite getj_set_table, getj_setj in G. destruct (Nat.eqb h h2).
+    + rewrite H in G. inversion G. cbn. split; [discriminate|]. intros _. apply final_cases.
+    + apply (St _ _ G).
+  - intros h2 j2 G. rewrite getj_set_table, getj_setj in G. destruct (Nat.eqb h h2).
+    + rewrite H in G. inversion G. cbn. split; [discriminate|]. intros _. unfold final; auto.
+    + apply (St _ _ G).
+  - intros h2 j2 G. rewrite getj_setj in G. destruct (Nat.eqb h h2).
+    + rewrite H in G. inversion G. cbn. split; [discriminate|]. intros _. unfold final; auto.
+    + apply (St _ _ G).
+Qed.
+
+(* a finished job is not touched by any step of these operations *)
+Lemma effect_frozen : forall s p s' h j,
+  Inv s -> effect s p s' -> c14_pc p = true -> getj s h = Some j -> jdone j = Nil -> getj s' h = Some j.
+Proof.
+  intros s p s' h j I E C G D. destruct E.
+  - exact G.
+  - rewrite (getj_insert_old _ _ _ _ G).
+    destruct (option_eqb Nat.eqb (lookup id (table s)) (Some h)) eqn:Q; [|reflexivity].
+    apply opt_eqb_true in Q. destruct (inv_table _ I _ _ Q) as [j2 [G2 [_ [D2 _]]]]. congruence.
+  - congruence.
+  - rewrite getj_set_table, getj_setj_other; auto. intro; subst h0.
+    destruct (inv_table _ I _ _ H0) as [j2 [G2 [_ [D2 _]]]]. congruence.
+  - rewrite getj_set_table, getj_setj_other; auto. intro; subst h0. congruence.
+  - rewrite getj_setj_other; auto. intro; subst h0. congruence.
+Qed.
+
+(* the configuration invariant of such histories *)
+Definition CInv (c : cfg) : Prop := InvSt (snd c) /\ clean (fst c).
+
+Lemma exec_cinv : forall e (c c' : cfg),
+  c14_ev e = true -> Inv (snd c) -> CInv c -> exec step init_pc e c = Ok c' -> CInv c'.
+Proof.
+  intros e c c' Ce I [St Cl] X. destruct e as [o|t].
+  - inversion X; subst. cbn [fst snd]. split; [exact St|]. intros t p N. cbn [fst] in N.
+    destruct (Nat.lt_ge_cases t (length (fst c))) as [L|G].
+    + rewrite nth_error_app1 in N by exact L. eapply Cl; eauto.
+    + rewrite nth_error_app2 in N by exact G. destruct (t - length (fst c))%nat as [|k]; cbn in N.
+      * inversion N. rewrite init_c14. exact Ce.
+      * destruct k; discriminate.
+  - apply exec_run_cases in X as [[_ ->]|[p [p' [s' [N [S ->]]]]]]; [split; auto|].
+    pose proof (Cl _ _ N) as Cp. split; cbn [fst snd].
+    + eapply effect_invst; eauto. eapply step_effect; eauto. apply I.
+    + intros t2 p2 N2. rewrite nth_upd in N2. destruct (Nat.eqb t t2).
+      * rewrite N in N2. inversion N2; subst. eapply step_c14; eauto.
+      * eapply Cl; eauto.
+Qed.
+
+Lemma run_from_cinv : forall es (c c' : cfg),
+  forallb c14_ev es = true -> Inv (snd c) -> CInv c -> run_from c es = Ok c' -> CInv c'.
+Proof.
+  induction es as [|e es IH]; intros c c' F I C H.
+  - inversion H; subst; exact C.
+  - cbn in F. apply andb_prop in F as [Fe Fr]. rewrite run_from_cons in H.
+    destruct (exec step init_pc e c) as [c1| |] eqn:X; try discriminate.
+    eapply IH; [exact Fr| | |exact H]; [eapply exec_inv|eapply exec_cinv]; eauto.
+Qed.
+
+Lemma CInv_0 : CInv cfg0.
+Proof. split; [intros h j G; destruct h; discriminate|intros t p N; destruct t; discriminate]. Qed.
+
+Lemma run_cinv : forall es c, forallb c14_ev es = true -> run es = Ok c -> CInv c.
+Proof. intros es c F H. eapply run_from_cinv; eauto. exact Inv_s0. exact CInv_0. Qed.
+
+(* pending <-> status waiting, no result; finished <-> final status *)
+Lemma status_pending_final : forall es c h j,
+  forallb c14_ev es = true -> run es = Ok c -> getj (snd c) h = Some j ->
+  (pending (snd c) h /\ jstatus j = StWaiting /\ jres j = 0 /\ jerr j = false) \/
+  (finished (snd c) h /\ final (jstatus j)).
+Proof.
+  intros es c h j F H G. destruct (run_cinv _ _ F H) as [St _]. pose proof (run_inv _ _ H) as I.
+  destruct (St _ _ G) as [A B]. pose proof (inv_noclosed _ I _ _ G).
+  destruct (jdone j) eqn:D; try congruence.
+  - left. split; [exists j; auto|auto].
+  - right. split; [exists j; auto|auto].
+Qed.
+
+Lemma exec_frozen : forall e (c c' : cfg) h j,
+  Inv (snd c) -> clean (fst c) -> exec step init_pc e c = Ok c' ->
+  getj (snd c) h = Some j -> jdone j = Nil -> getj (snd c') h = Some j.
+Proof.
+  intros e c c' h j I Cl X G D. destruct (exec_effect _ _ _ I X) as [->|[t [p [_ [N E]]]]]; [exact G|].
+  eapply effect_frozen; eauto.
+Qed.
+
+(* never changes afterwards *)
+Lemma finished_frozen : forall es (c c' : cfg) h j,
+  forallb c14_ev es = true -> Inv (snd c) -> CInv c -> run_from c es = Ok c' ->
+  getj (snd c) h = Some j -> jdone j = Nil -> getj (snd c') h = Some j.
+Proof.
+  induction es as [|e es IH]; intros c c' h j F I C H G D.
+  - inversion H; subst; exact G.
+  - cbn in F. apply andb_prop in F as [Fe Fr]. rewrite run_from_cons in H.
+    destruct (exec step init_pc e c) as [c1| |] eqn:X; try discriminate.
+    eapply IH; [exact Fr| | |exact H| |exact D].
+    + eapply exec_inv; eauto.
+    + eapply exec_cinv; eauto.
+    + eapply exec_frozen; eauto. apply C.
+Qed.
+
+(* the finishing step: the one step in which a job goes from pending to finished is the critical
+   section of a result (PH2) or of a Cancel (PC1) on that very job; it records the status of
+   that event, the result of that event, and takes the job out of the table *)
+Lemma finishing_step : forall t (c c' : cfg) h,
+  Inv (snd c) -> CInv c -> exec step init_pc (Run t) c = Ok c' ->
+  pending (snd c) h -> finished (snd c') h ->
+  exists p st r j', nth_error (fst c) t = Some p /\ commit p = Some (h, st, r) /\
+    getj (snd c') h = Some j' /\ jstatus j' = st /\ final st /\
+    jres j' = match r with Some tag => tag | None => 0 end /\
+    ~ tracked (snd c') h.
+Proof.
+  intros t c c' h I [St Cl] X P F.
+  assert (I' : Inv (snd c')) by (eapply exec_inv; eauto).
+  destruct (exec_effect _ _ _ I X) as [E|[t' [p [Et [N E]]]]].
+  - exfalso. rewrite E in F. eapply pending_not_finished; eauto.
+  - inversion Et; subst t'. clear Et. destruct P as [j [G D]]. destruct F as [j' [G' D']].
+    exists p. destruct E.
+    + congruence.
+    + rewrite (getj_insert_old _ _ _ _ G) in G'. inversion G'; subst.
+      destruct (option_eqb Nat.eqb (lookup id (table (snd c))) (Some h)); cbn in D'; congruence.
+    + pose proof (Cl _ _ N). congruence.
+    + rewrite getj_set_table, getj_setj in G'. destruct (Nat.eqb h0 h) eqn:Q; [|congruence].
+      apply Nat.eqb_eq in Q. subst h0. rewrite H in G'. inversion G'; subst j'.
+      rewrite H in G. inversion G; subst j0.
+      exists (if err then StError else StCompleted), (Some tag). eexists.
+      split; [exact N|]. split; [reflexivity|].
+      split; [rewrite getj_set_table; eapply getj_setj_same; eauto|].
+      split; [reflexivity|]. split; [apply final_cases|]. split; [reflexivity|].
+      apply finished_not_tracked; auto. eexists. split; [rewrite getj_set_table; eapply getj_setj_same; eauto|reflexivity].
+    + rewrite getj_set_table, getj_setj in G'. destruct (Nat.eqb h0 h) eqn:Q; [|congruence].
+      apply Nat.eqb_eq in Q. subst h0. rewrite H in G'. inversion G'; subst j'.
+      rewrite H in G. inversion G; subst j0.
+      exists StCanceled, None. eexists.
+      split; [exact N|]. split; [reflexivity|].
+      split; [rewrite getj_set_table; eapply getj_setj_same; eauto|].
+      split; [reflexivity|]. split; [unfold final; auto|].
+      split; [cbn; destruct (St _ _ H) as [A _]; apply A in D; tauto|].
+      apply finished_not_tracked; auto. eexists. split; [rewrite getj_set_table; eapply getj_setj_same; eauto|reflexivity].
+    + rewrite getj_setj in G'. destruct (Nat.eqb h0 h) eqn:Q; [|congruence].
+      apply Nat.eqb_eq in Q. subst h0. rewrite H in G'. inversion G'; subst j'.
+      rewrite H in G. inversion G; subst j0.
+      exists StCanceled, None. eexists.
+      split; [exact N|]. split; [reflexivity|].
+      split; [eapply getj_setj_same; eauto|].
+      split; [reflexivity|]. split; [unfold final; auto|].
+      split; [cbn; destruct (St _ _ H) as [A _]; apply A in D; tauto|].
+      apply finished_not_tracked; auto. eexists. split; [eapply getj_setj_same; eauto|reflexivity].
+Qed.
+
+Lemma forallb_app_inv : forall {A} (f : A -> bool) l1 l2,
+  forallb f (l1 ++ l2) = true -> forallb f l1 = true /\ forallb f l2 = true.
+Proof. intros. rewrite forallb_app in H. apply andb_prop in H. exact H. Qed.
+
+(* status_first_event *)
+Lemma status_first_event : forall es1 t es2 (c1 c2 c3 : cfg) h,
+  forallb c14_ev (es1 ++ Run t :: es2) = true ->
+  run es1 = Ok c1 -> exec step init_pc (Run t) c1 = Ok c2 -> run_from c2 es2 = Ok c3 ->
+  pending (snd c1) h -> finished (snd c2) h ->
+  exists p st r j, nth_error (fst c1) t = Some p /\ commit p = Some (h, st, r) /\
+    getj (snd c2) h = Some j /\ jstatus j = st /\ final st /\
+    jres j = match r with Some tag => tag | None => 0 end /\
+    getj (snd c3) h = Some j /\ ~ tracked (snd c3) h.
+Proof.
+  intros es1 t es2 c1 c2 c3 h F H1 X H3 P Fi.
+  apply forallb_app_inv in F as [F1 F2]. cbn in F2.
+  pose proof (run_inv _ _ H1) as I1. pose proof (run_cinv _ _ F1 H1) as C1.
+  assert (I2 : Inv (snd c2)) by (eapply exec_inv; eauto).
+  assert (C2 : CInv c2) by (apply (exec_cinv (Run t) c1 c2); auto).
+  assert (I3 : Inv (snd c3)) by (eapply run_from_inv; eauto).
+  destruct (finishing_step _ _ _ _ I1 C1 X P Fi) as [p [st [r [j [N [Cm [G [S [Fs [R NT]]]]]]]]]].
+  exists p, st, r, j. do 6 (split; [assumption|]). split.
+  - destruct Fi as [j' [G' D']]. rewrite G in G'. inversion G'; subst j'.
+    exact (finished_frozen es2 c2 c3 h j F2 I2 C2 H3 G D').
+  - apply finished_not_tracked; auto. exact (finished_stable es2 c2 c3 h I2 Fi H3).
+Qed.
+
+(* ---- unknown_result_ignored -------------------------------------------------------------- *)
+Definition handle_R (wf : bool) (id : Z) (err : bool) (tag : Z) (p : pc) (s : sess) : Prop :=
+  p = PH0 wf id err tag \/
+  (p = PH1 id err tag /\ wf = true /\ 2 <= id) \/
+  (exists h j, p = PH2 h err tag /\ wf = true /\ 2 <= id /\ getj s h = Some j /\ jid j = id) \/
+  (exists r, p = PDone r).
+
+Lemma handle_thread : forall es (c c' : cfg) wf id err tag,
+  Inv (snd c) -> run_from c (Spawn (OHandle wf id err tag) :: es) = Ok c' ->
+  exists p, nth_error (fst c') (length (fst c)) = Some p /\ handle_R wf id err tag p (snd c').
+Proof.
+  intros es c c' wf id err tag I H. rewrite run_from_cons, exec_spawn in H. cbn [bind] in H.
+  apply (thread_inv (handle_R wf id err tag)) with (es := es) (c := (fst c ++ [init_pc (OHandle wf id err tag)], snd c));
+    [| |exact I|exists (PH0 wf id err tag); cbn [fst snd]; split; [apply nth_spawned|left; reflexivity]|exact H].
+  - intros p s p' s' Is R S. destruct R as [->|[[-> [W L]]|[[h [j [-> [W [L [G J]]]]]]|[r ->]]]].
+    + cbn in S. destruct (negb wf || (id <? 2)) eqn:Q.
+      * inversion S. right. right. right. eauto.
+      * apply orb_false_elim in Q as [Q1 Q2]. apply negb_false_iff in Q1. apply Z.ltb_ge in Q2.
+        destruct (is_nil (table s)); inversion S; subst; [right; right; right; eauto|].
+        right. left. auto.
+    + cbn in S. destruct (lookup id (table s)) as [h|] eqn:Lk; inversion S; subst.
+      * destruct (inv_table _ Is _ _ Lk) as [j [G [J _]]]. right. right. left. exists h, j. auto.
+      * right. right. right. eauto.
+    + right. right. right. cbn in S. unfold close_nil, close_chan, bind in S.
+      break_in S; try discriminate; inversion S; eauto.
+    + inversion S. right. right. right. eauto.
+  - intros p s q s' Is R E. destruct R as [->|[[-> [W L]]|[[h [j [-> [W [L [G J]]]]]]|[r ->]]]].
+    + left. reflexivity.
+    + right. left. auto.
+    + right. right. left. destruct (effect_mono _ _ _ _ _ E G) as [j' [G' [J' _]]].
+      exists h, j'. repeat split; auto. congruence.
+    + right. right. right. eauto.
+Qed.
+
+(* every step of a result-arrival thread either changes nothing, or the packet was well formed,
+   its number id is >= 2, the table holds a pending job h under id at that moment, and the step
+   finishes exactly that job with the packet's status and result *)
+Lemma result_attribution : forall es (c c2 c3 : cfg) wf id err tag,
+  Inv (snd c) -> run_from c (Spawn (OHandle wf id err tag) :: es) = Ok c2 ->
+  exec step init_pc (Run (length (fst c))) c2 = Ok c3 ->
+  snd c3 = snd c2 \/
+  (wf = true /\ 2 <= id /\ exists h j,
+     lookup id (table (snd c2)) = Some h /\ getj (snd c2) h = Some j /\ jdone j = Open /\
+     snd c3 = set_table (setj (snd c2) h (fin_job j (if err then StError else StCompleted) tag err))
+                        (remove id (table (snd c2)))).
+Proof.
+  intros es c c2 c3 wf id err tag I H X.
+  assert (I2 : Inv (snd c2)) by (eapply run_from_inv; eauto).
+  destruct (handle_thread _ _ _ _ _ _ _ I H) as [p [N R]].
+  apply exec_run_cases in X as [[_ ->]|[q [q' [s' [N' [S ->]]]]]]; [left; reflexivity|].
+  rewrite N in N'. inversion N'; subst q. cbn [snd].
+  pose proof (step_effect _ _ _ _ (inv_noclosed _ I2) S) as E.
+  destruct R as [->|[[-> [W L]]|[[h [j [-> [W [L [G J]]]]]]|[r ->]]]]; inversion E; subst; auto; try discriminate.
+  right. split; [auto|]. split; [auto|].
+  match goal with Hg : getj (snd c2) h = Some ?x, Hl : lookup (jid ?x) _ = Some h |- _ =>
+    rewrite G in Hg; inversion Hg; subst x;
+    destruct (inv_table _ I2 _ _ Hl) as [j2 [G2 [_ [D2 _]]]]; rewrite G in G2; inversion G2; subst j2;
+    exists h, j; auto
+  end.
+Qed.
+
+Lemma mem_false_lookup : forall i t, mem i t = false -> lookup i t = None.
+Proof. intros i t H. unfold mem in H. destruct (lookup i t); [discriminate|reflexivity]. Qed.
+
+Lemma unknown_result_ignored : forall es (c c2 c3 : cfg) wf id err tag,
+  Inv (snd c) -> run_from c (Spawn (OHandle wf id err tag) :: es) = Ok c2 ->
+  exec step init_pc (Run (length (fst c))) c2 = Ok c3 ->
+  mem id (table (snd c2)) = false \/ wf = false \/ id < 2 ->
+  snd c3 = snd c2.
+Proof.
+  intros es c c2 c3 wf id err tag I H X Q.
+  destruct (result_attribution _ _ _ _ _ _ _ _ I H X) as [E|[W [L [h [j [Lk _]]]]]]; [exact E|].
+  exfalso. destruct Q as [Q|[Q|Q]]; [|congruence|lia].
+  apply mem_false_lookup in Q. congruence.
+Qed.
+
+(* ---- job numbers: Task ------------------------------------------------------------------- *)
+(* the number Task allocates (n.Job = 0) is > 1, a uint16 and not in the table at the check *)
+Lemma task_alloc_fresh : forall draws full s i full' s',
+  step (PTask0 0 draws full) s = Ok (PTask1 i full', s') ->
+  1 < i < 65536 /\ mem i (table s) = false /\ s' = s.
+Proof.
+  intros draws full s i full' s' H.
+  change (step (PTask0 0 draws full) s) with
+    (if new_job_id draws (table s) =? 0 then Ok (PDone (RErr E_NOID), s)
+     else Ok (PTask1 (new_job_id draws (table s)) full, s)) in H.
+  destruct (new_job_id draws (table s) =? 0) eqn:E; inversion H; subst s'.
+  apply Z.eqb_neq in E. destruct (new_job_id_fresh draws (table s) _ eq_refl) as [Z0|[R M]]; [congruence|].
+  subst i. auto.
+Qed.
+
+Lemma mem_lookup_none : forall i t, mem i t = false <-> lookup i t = None.
+Proof. intros. unfold mem. destruct (lookup i t); split; congruence. Qed.
+
+(* when no two Task calls with the same number overlap between check and insert, a thread inside
+   its window holds a number that is not in the table, and no job is ever overwritten *)
+Definition WInv (c : cfg) : Prop :=
+  (forall t p i, nth_error (fst c) t = Some p -> in_window p = Some i -> mem i (table (snd c)) = false) /\
+  (forall h j, getj (snd c) h = Some j -> jorph j = false).
+
+Lemma step_window : forall p s p' s' i,
+  step p s = Ok (p', s') -> in_window p' = Some i ->
+  s' = s /\ (in_window p = Some i \/ mem i (table s) = false).
+Proof.
+  intros p s p' s' i H W.
+  destruct p; cbn [step step_common] in H; unfold close_nil, close_chan, bind in H;
+    break_in H; try discriminate; inversion H; subst; cbn in W; try discriminate; inversion W; subst; auto.
+Qed.
+
+Lemma mem_remove : forall i k t, mem i t = false -> mem i (remove k t) = false.
+Proof.
+  intros i k t H. apply mem_lookup_none. apply mem_lookup_none in H. rewrite lookup_remove, H.
+  destruct (i =? k); reflexivity.
+Qed.
+
+Lemma effect_winv_table : forall s p s' i,
+  effect s p s' -> mem i (table s) = false -> in_window p <> Some i -> mem i (table s') = false.
+Proof.
+  intros s p s' i E M NW. destruct E; cbn [table setj set_table]; auto using mem_remove.
+  apply mem_lookup_none. rewrite lookup_insert. destruct (id =? i) eqn:Q.
+  - apply Z.eqb_eq in Q. subst. exfalso. apply NW. reflexivity.
+  - apply mem_lookup_none. exact M.
+Qed.
+
+Lemma effect_winv_orph : forall s p s',
+  effect s p s' -> (forall i, in_window p = Some i -> mem i (table s) = false) ->
+  (forall h j, getj s h = Some j -> jorph j = false) -> forall h j, getj s' h = Some j -> jorph j = false.
+Proof.
+  intros s p s' E W Or h2 j2 G. destruct E.
+  - eauto.
+  - apply getj_insert_inv in G as [[_ ->]|[j0 [G [[-> _]|[-> L]]]]]; eauto.
+    specialize (W id eq_refl). apply mem_lookup_none in W. congruence.
+  - rewrite getj_setj in G. destruct (Nat.eqb h h2).
+    + rewrite H0 in G. inversion G; subst. rewrite H3. eauto.
+    + eauto.
+  - rewrite getj_set_table, getj_setj in G. destruct (Nat.eqb h h2).
+    + rewrite H in G. inversion G. cbn. eauto.
+    + eauto.
+  - rewrite getj_set_table, getj_setj in G. destruct (Nat.eqb h h2).
+    + rewrite H in G. inversion G. cbn. eauto.
+    + eauto.
+  - rewrite getj_setj in G. destruct (Nat.eqb h h2).
+    + rewrite H in G. inversion G. cbn. eauto.
+    + eauto.
+Qed.
+
+Lemma init_not_window : forall o, in_window (init_pc o) = None.
+Proof. destruct o; reflexivity. Qed.
+
+Lemma exec_winv : forall e (c c' : cfg),
+  Inv (snd c) -> task_excl (fst c) -> WInv c -> exec step init_pc e c = Ok c' -> WInv c'.
+Proof.
+  intros e c c' I TE [W Or] X. destruct e as [o|t].
+  - inversion X; subst. split; cbn [fst snd]; [|exact Or]. intros t p i N Wi.
+    destruct (Nat.lt_ge_cases t (length (fst c))) as [L|G].
+    + rewrite nth_error_app1 in N by exact L. eapply W; eauto.
+    + rewrite nth_error_app2 in N by exact G. destruct (t - length (fst c))%nat as [|k]; cbn in N.
+      * inversion N; subst. rewrite init_not_window in Wi. discriminate.
+      * destruct k; discriminate.
+  - apply exec_run_cases in X as [[_ ->]|[p [p' [s' [N [S ->]]]]]]; [split; auto|].
+    pose proof (step_effect _ _ _ _ (inv_noclosed _ I) S) as E.
+    split; cbn [fst snd].
+    + intros t2 p2 i N2 Wi. rewrite nth_upd in N2. destruct (Nat.eqb t t2) eqn:Q.
+      * rewrite N in N2. inversion N2; subst p2.
+        destruct (step_window _ _ _ _ _ S Wi) as [-> [Wp|M]]; [eapply W; eauto|exact M].
+      * apply Nat.eqb_neq in Q.
+        eapply effect_winv_table; [exact E|eapply W; eauto|intro Wp; apply Q; eapply TE; eauto].
+    + eapply effect_winv_orph; eauto.
+Qed.
+
+Lemma WInv_0 : WInv cfg0.
+Proof. split; [intros t p i N; destruct t; discriminate|intros h j G; destruct h; discriminate]. Qed.
+
+Lemma serial_winv : forall es (c c' : cfg),
+  Inv (snd c) -> WInv c -> tasks_serial c es -> run_from c es = Ok c' -> WInv c'.
+Proof.
+  induction es as [|e es IH]; intros c c' I W TS H.
+  - inversion H; subst; exact W.
+  - destruct TS as [TE TS]. rewrite run_from_cons in H.
+    destruct (exec step init_pc e c) as [c1| |] eqn:X; try discriminate.
+    eapply IH; [| |exact TS|exact H]; [eapply exec_inv|eapply exec_winv]; eauto.
+Qed.
+
+(* sequential Task calls: no job is ever overwritten, hence every job is tracked exactly while
+   it is pending, and the number being inserted is not a pending job's *)
+Lemma serial_no_orphan : forall es c h,
+  tasks_serial cfg0 es -> run es = Ok c -> ~ orphaned (snd c) h.
+Proof.
+  intros es c h TS H [j [G Or]].
+  destruct (serial_winv es cfg0 c Inv_s0 WInv_0 TS H) as [_ O]. rewrite (O _ _ G) in Or. discriminate.
+Qed.
+
+Lemma serial_tracked_iff_pending : forall es c h,
+  tasks_serial cfg0 es -> run es = Ok c -> (tracked (snd c) h <-> pending (snd c) h).
+Proof.
+  intros es c h TS H. pose proof (run_inv _ _ H) as I. split; [apply tracked_pending; exact I|].
+  intros [j [G D]]. destruct (serial_winv es cfg0 c Inv_s0 WInv_0 TS H) as [_ O].
+  exists (jid j). apply (inv_open _ I); auto. eapply O; eauto.
+Qed.
+
+Lemma serial_insert_fresh : forall es c t id,
+  tasks_serial cfg0 es -> run es = Ok c -> nth_error (fst c) t = Some (PTask3 id) ->
+  mem id (table (snd c)) = false.
+Proof.
+  intros es c t id TS H N. destruct (serial_winv es cfg0 c Inv_s0 WInv_0 TS H) as [W _].
+  exact (W t (PTask3 id) id N eq_refl).
+Qed.
+
+(* concurrent Task calls with one number (the recorded finding): both pass the check, both insert;
+   the first job is overwritten, stays pending, is not in the table; the result for number 7 goes
+   to the second job and a waiter of the first stays blocked *)
+Definition race_hist : hist :=
+  [Spawn (OTask 7 [] false); Spawn (OTask 7 [] false);
+   Run 0%nat; Run 0%nat; Run 0%nat; Run 1%nat; Run 1%nat; Run 1%nat; Run 0%nat; Run 1%nat;
+   Spawn (OHandle true 7 false 1); Run 2%nat; Run 2%nat; Run 2%nat;
+   Spawn (OWait 0%nat); Run 3%nat; Run 3%nat; Run 3%nat].
+
+Lemma task_id_race_refuted :
+  exists es c, run es = Ok c /\ ~ tasks_serial cfg0 es /\
+    orphaned (snd c) 0%nat /\ pending (snd c) 0%nat /\ ~ tracked (snd c) 0%nat /\
+    finished (snd c) 1%nat /\ nth_error (fst c) 3%nat = Some (PW1 0%nat).
+Proof.
+  exists race_hist. eexists. split; [vm_compute; reflexivity|]. cbn [fst snd].
+  split; [|split; [|split; [|split; [|split]]]].
+  - intro TS. cbn in TS. decompose [and] TS.
+    match goal with X : task_excl [PTask3 7; PTask3 7] |- _ =>
+      specialize (X 0%nat 1%nat (PTask3 7) (PTask3 7) 7 eq_refl eq_refl eq_refl eq_refl); discriminate end.
+  - eexists. split; reflexivity.
+  - eexists. split; reflexivity.
+  - intros [k L]. cbn in L. discriminate.
+  - eexists. split; reflexivity.
+  - reflexivity.
+Qed.
+
+(* ---- the sequential semantics of the correspondence run is a special case of the histories - *)
+Lemma run_solo_done : forall f r s, run_solo f (PDone r) s = Ok (r, s).
+Proof. destruct f; reflexivity. Qed.
+
+Lemma run_solo_S : forall f p s, (forall r, p <> PDone r) ->
+  run_solo (S f) p s = do '(p', s') <- step p s; run_solo f p' s'.
+Proof. intros f p s H. destruct p; try reflexivity. exfalso. eapply H; eauto. Qed.
+
+Lemma run_solo_O : forall p s, (forall r, p <> PDone r) -> run_solo O p s = Ok (RBlocked, s).
+Proof. intros p s H. destruct p; try reflexivity. exfalso. eapply H; eauto. Qed.
+
+Lemma stutter_done : forall n (ps : list pc) t r s,
+  nth_error ps t = Some (PDone r) -> run_from (ps, s) (repeat (Run t) n) = Ok (ps, s).
+Proof.
+  induction n as [|n IH]; intros ps t r s N; [reflexivity|].
+  cbn [repeat]. rewrite run_from_cons. unfold exec. cbn [fst snd]. rewrite N. cbn.
+  rewrite (upd_same _ _ _ N). eapply IH; eauto.
+Qed.
+
+Lemma run_solo_sched : forall n p s r s' (ps : list pc) t,
+  nth_error ps t = Some p -> run_solo n p s = Ok (r, s') ->
+  exists p', run_from (ps, s) (repeat (Run t) n) = Ok (upd ps t p', s') /\ (p' = PDone r \/ r = RBlocked).
+Proof.
+  induction n as [|n IH]; intros p s r s' ps t N H.
+  - assert (D : (exists r0, p = PDone r0) \/ (forall r0, p <> PDone r0)) by (destruct p; eauto; right; discriminate).
+    destruct D as [[r0 ->]|D].
+    + inversion H; subst. exists (PDone r). rewrite (upd_same _ _ _ N). auto.
+    + rewrite run_solo_O in H by exact D. inversion H; subst. exists p. rewrite (upd_same _ _ _ N). auto.
+  - assert (D : (exists r0, p = PDone r0) \/ (forall r0, p <> PDone r0)) by (destruct p; eauto; right; discriminate).
+    destruct D as [[r0 ->]|D].
+    + rewrite run_solo_done in H. inversion H; subst. exists (PDone r).
+      rewrite (upd_same _ _ _ N). split; [|auto]. eapply stutter_done; eauto.
+    + rewrite run_solo_S in H by exact D. unfold bind in H.
+      destruct (step p s) as [[p1 s1]| |] eqn:S; try discriminate.
+      destruct (IH p1 s1 r s' (upd ps t p1) t (nth_upd_same _ _ _ _ N) H) as [p' [R Q]].
+      exists p'. split; [|exact Q]. cbn [repeat]. rewrite run_from_cons. unfold exec. cbn [fst snd].
+      rewrite N, S. cbn. rewrite R, upd_upd. reflexivity.
+Qed.
+
+Lemma upd_app_last : forall {A} (l : list A) x y, upd (l ++ [x]) (length l) y = l ++ [y].
+Proof. induction l; intros; cbn; [reflexivity|]. f_equal. apply IHl. Qed.
+
+(* apply_op (what `check` evaluates on every generated case) = spawn the operation and let it
+   run alone *)
+Lemma solo_is_schedule : forall o s r s' (ps : list pc),
+  apply_op o s = Ok (r, s') ->
+  exists p', run_from (ps, s) (Spawn o :: repeat (Run (length ps)) 8) = Ok (ps ++ [p'], s') /\
+             (p' = PDone r \/ r = RBlocked).
+Proof.
+  intros o s r s' ps H. unfold apply_op in H.
+  destruct (run_solo_sched 8 (init_pc o) s r s' (ps ++ [init_pc o]) (length ps) (nth_spawned _ _) H) as [p' [R Q]].
+  exists p'. split; [|exact Q]. rewrite run_from_cons, exec_spawn. cbn [bind fst snd].
+  rewrite R, upd_app_last. reflexivity.
+Qed.
+
+(* ---- the pinned code fails the same statements (regression witnesses) ---------------------- *)
+(* Task(7); Cancel: the job leaves the table with Status = waiting *)
+Lemma pinned_cancel_status_refuted :
+  exists es c j, pinned_run es = Ok c /\ getj (snd c) 0%nat = Some j /\
+                 jdone j = Nil /\ jstatus j = StWaiting.
+Proof.
+  exists [Spawn (OTask 7 [] false); Run 0%nat; Run 0%nat; Run 0%nat; Run 0%nat;
+          Spawn (OCancel 0%nat); Run 1%nat; Run 1%nat; Run 1%nat].
+  eexists. eexists. split; [vm_compute; reflexivity|]. split; [reflexivity|]. split; reflexivity.
+Qed.
+
+(* result || Cancel: handle.setStatus; Cancel sees "completed" and closes done; handle closes it again *)
+Lemma pinned_double_close_refuted : exists es, pinned_run es = Panic.
+Proof.
+  exists [Spawn (OTask 7 [] false); Run 0%nat; Run 0%nat; Run 0%nat; Run 0%nat;
+          Spawn (OHandle true 7 false 1); Spawn (OCancel 0%nat);
+          Run 1%nat; Run 1%nat; Run 1%nat; Run 1%nat; Run 1%nat;
+          Run 2%nat; Run 2%nat; Run 2%nat; Run 2%nat; Run 1%nat].
+  vm_compute. reflexivity.
+Qed.
+
+(* ---- non-vacuity: result || Cancel || Cancel on the current code ---------------------------- *)
+Definition race3_hist : hist :=
+  [Spawn (OTask 7 [] false); Run 0%nat; Run 0%nat; Run 0%nat; Run 0%nat;
+   Spawn (OHandle true 7 false 1); Spawn (OCancel 0%nat); Spawn (OCancel 0%nat);
+   Run 1%nat; Run 2%nat; Run 3%nat; Run 1%nat; Run 2%nat; Run 1%nat; Run 3%nat].
+
+Lemma race3_result :
+  run race3_hist =
+  Ok ([PDone (RJob 0%nat); PDone (RBool false); PDone RUnit; PDone RUnit],
+      mkSess [mkJob 7 StCanceled Nil 0 false 0 false] []).
+Proof. vm_compute. reflexivity. Qed.
+
+(* the same three threads, the result first *)
+Definition race3b_hist : hist :=
+  [Spawn (OTask 7 [] false); Run 0%nat; Run 0%nat; Run 0%nat; Run 0%nat;
+   Spawn (OHandle true 7 true 1); Spawn (OCancel 0%nat); Spawn (OCancel 0%nat);
+   Run 1%nat; Run 2%nat; Run 3%nat; Run 1%nat; Run 1%nat; Run 2%nat; Run 3%nat].
+
+Lemma race3b_result :
+  run race3b_hist =
+  Ok ([PDone (RJob 0%nat); PDone (RBool true); PDone RUnit; PDone RUnit],
+      mkSess [mkJob 7 StError Nil 1 true 0 false] []).
+Proof. vm_compute. reflexivity. Qed.
+
+(* ---- the statements of Props/C14.v, assembled ------------------------------------------------ *)
+(* waiters_released: in every reachable state a job that has left the table (and was not
+   overwritten by a concurrent Task) has done = nil, and every thread blocked in Wait on it
+   returns at its next step *)
+Lemma waiters_released : forall es c h j t p,
+  run es = Ok c -> getj (snd c) h = Some j -> jorph j = false -> ~ tracked (snd c) h ->
+  finished (snd c) h /\
+  (nth_error (fst c) t = Some p -> p = PW0 h \/ p = PW1 h ->
+   exec step init_pc (Run t) c = Ok (upd (fst c) t (PDone RUnit), snd c)).
+Proof.
+  intros es c h j t p H G Or NT. pose proof (run_inv _ _ H) as I.
+  assert (F : finished (snd c) h) by (eapply untracked_finished; eauto).
+  split; [exact F|]. intros N P. unfold exec. rewrite N.
+  rewrite (wait_step_finished _ _ _ F P). reflexivity.
+Qed.
+
+(* ... and Wait never returns while the job is pending *)
+Lemma wait_returns_only_finished : forall es1 es2 c1 c2 h r,
+  run es1 = Ok c1 -> (h < length (jobs (snd c1)))%nat ->
+  run_from c1 (Spawn (OWait h) :: es2) = Ok c2 ->
+  nth_error (fst c2) (length (fst c1)) = Some (PDone r) -> finished (snd c2) h.
+Proof. intros es1 es2 c1 c2 h r H. eapply wait_not_early. eapply run_inv; eauto. Qed.
+
+Lemma cancel_returns_finished : forall es1 es2 c1 c2 h r,
+  run es1 = Ok c1 -> (h < length (jobs (snd c1)))%nat ->
+  run_from c1 (Spawn (OCancel h) :: es2) = Ok c2 ->
+  nth_error (fst c2) (length (fst c1)) = Some (PDone r) ->
+  finished (snd c2) h /\ ~ tracked (snd c2) h.
+Proof. intros es1 es2 c1 c2 h r H. eapply cancel_completes. eapply run_inv; eauto. Qed.
+
+(* IsDone = true only for a finished job *)
+Definition isdone_R (h : nat) (p : pc) (s : sess) : Prop :=
+  (h < length (jobs s))%nat /\
+  (p = PI0 h \/ p = PI1 h \/ p = PDone (RBool false) \/ (p = PDone (RBool true) /\ finished s h)).
+
+Lemma isdone_true_finished : forall es1 es2 c1 c2 h,
+  run es1 = Ok c1 -> (h < length (jobs (snd c1)))%nat ->
+  run_from c1 (Spawn (OIsDone h) :: es2) = Ok c2 ->
+  nth_error (fst c2) (length (fst c1)) = Some (PDone (RBool true)) -> finished (snd c2) h.
+Proof.
+  intros es1 es2 c h0 h H1 V H N. pose proof (run_inv _ _ H1) as I. rename h0 into c'.
+  rewrite run_from_cons, exec_spawn in H. cbn [bind] in H.
+  destruct (thread_inv (isdone_R h)) with (es := es2) (c := (fst c ++ [init_pc (OIsDone h)], snd c)) (c' := c') (t := length (fst c))
+    as [p' [N' [_ R]]]; auto.
+  - intros p s p' s' Is [L R] S. pose proof (inv_noclosed _ Is) as NC. destruct (lt_getj _ _ L) as [j G].
+    destruct R as [->|[->|[->|[-> F]]]]; cbn in S; try rewrite G in S.
+    + destruct (jdone j) eqn:D; inversion S; subst; (split; [auto|]); auto.
+      right. right. right. split; auto. exists j. auto.
+    + destruct (jdone j) eqn:D; inversion S; subst; (split; [auto|]); auto;
+        try (exfalso; eapply NC; eauto; fail). right. right. right. split; auto. exists j. auto.
+    + inversion S; subst. split; auto.
+    + inversion S; subst. split; auto.
+  - intros p s q s' Is [L R] E. split; [eapply valid_effect; eauto|].
+    destruct R as [->|[->|[->|[-> F]]]]; auto. right. right. right. split; auto. eapply finished_effect; eauto.
+  - exists (PI0 h). cbn. split; [apply nth_spawned|]. split; auto.
+  - rewrite N in N'. inversion N'; subst. destruct R as [X|[X|[X|[_ F]]]]; try discriminate. exact F.
+Qed.
+
+(* leaves_table: a finished job is not in the table, under any number; what the table holds is pending *)
+Lemma leaves_table : forall es c h,
+  run es = Ok c -> (finished (snd c) h -> ~ tracked (snd c) h) /\ (tracked (snd c) h -> pending (snd c) h).
+Proof.
+  intros es c h H. pose proof (run_inv _ _ H) as I. split.
+  - apply finished_not_tracked; auto.
+  - apply tracked_pending; auto.
+Qed.
+
+(* once finished, always finished (any operations) *)
+Lemma finished_forever : forall es1 es2 c1 c2 h,
+  run es1 = Ok c1 -> run_from c1 es2 = Ok c2 -> finished (snd c1) h -> finished (snd c2) h.
+Proof. intros. eapply finished_stable; eauto. eapply run_inv; eauto. Qed.
+
+(* outside the quantifier of the property: accept / frag write Job.Status without the lock, after
+   an unlocked-from-then-on lookup; racing a result they overwrite the final status *)
+Lemma accept_overwrites_final_status :
+  exists es c j, run es = Ok c /\ getj (snd c) 0%nat = Some j /\ jdone j = Nil /\ jstatus j = StAccepted.
+Proof.
+  exists [Spawn (OTask 7 [] false); Run 0%nat; Run 0%nat; Run 0%nat; Run 0%nat;
+          Spawn (OAccept 7); Run 1%nat; Run 1%nat;
+          Spawn (OHandle true 7 false 1); Run 2%nat; Run 2%nat; Run 2%nat; Run 1%nat].
+  eexists. eexists. split; [vm_compute; reflexivity|]. split; [reflexivity|]. split; reflexivity.
+Qed.
